@@ -458,6 +458,34 @@ func ruleD5(w *world.World, r *report.RuleResult) {
 	if n == 0 {
 		r.Fail(cpn+"|write-sync-before-success", w.Pos(cp.Pos()), "CreatePreamble has no success return")
 	}
+	// the old preamble is destroyed (Truncate) only after the new content has been produced successfully
+	var mcall, tcall *ssa.Call
+	for _, c := range world.Calls(cp) {
+		call, ok := c.(*ssa.Call)
+		if !ok {
+			continue
+		}
+		if f := call.Call.StaticCallee(); f != nil && f.String() == "encoding/json.Marshal" {
+			mcall = call
+		}
+		if invokeName(call) == "Truncate" {
+			tcall = call
+		}
+	}
+	if tcall != nil {
+		const M world.Facts = 1
+		in3 := world.Must(cp, func(b *ssa.BasicBlock, si int) world.Facts {
+			if mcall != nil && world.ErrNilEdge(b, func(v ssa.Value) bool { return v == ssa.Value(mcall) }) == si {
+				return M
+			}
+			return 0
+		}, nil, nil)
+		if mcall != nil && world.FactsAt(in3, tcall, nil, nil)&M != 0 {
+			r.OK(cpn+"|truncate-after-content-ready", w.InstrPos(tcall), "the previous preamble is truncated only after the new content was marshalled successfully")
+		} else {
+			r.Fail(cpn+"|truncate-after-content-ready", w.InstrPos(tcall), "CreatePreamble truncates the existing preamble before the new content has been produced successfully: a rewrite that fails while serialising the state (e.g. a value json cannot encode) has already destroyed the only durable copy of everything compacted earlier")
+		}
+	}
 	// the bytes written are the marshalled state from getStateFunc
 	okData := false
 	if len(wcall.Call.Args) == 1 {
